@@ -335,12 +335,21 @@ class Driver:
 
     def decoy_case(self, doc, text, prep, o, desc):
         """A rule set prepared up front: the matcher of this rule is built, then the matcher of ANOTHER rule with the opposite
-        full-match flags (all other configuration equal) is built, then this one is run. Each rule is judged under its own flags."""
+        full-match flags (and, half of the time, another address range and section list) is built, then this one is run. Each rule
+        is judged under its own configuration."""
         ctx = self.ctx
         cfg = dict(doc.get("config") or {})
         other = dict(cfg)
         other["mnemonics-full-match"] = not cfg.get("mnemonics-full-match", False)
         other["operands-full-match"] = not cfg.get("operands-full-match", False)
+        if ctx.rng.random() < 0.5:
+            # ... and the options consulted while matching differ too: the decoy carries a range when this rule has none (and the other way round)
+            if "valid_addr_range" in other:
+                del other["valid_addr_range"]
+            else:
+                other["valid_addr_range"] = {"min": "0", "max": "ffffffffffffffff"}
+            other["sections"] = [".decoy"]
+            ctx.event("decoy_rules_with_other_range_and_sections")
         dp = self.ws.write("decoy.yaml", real.dump_rule({"config": other, "pattern": [{"nop": []}, "ret"]}))
         search = ctx.rng.choice(["all", "first"])
         b1 = real.build(self.ws.path("rule.yaml"), prep.path, ret="list", search=search, macros=self.macros)
